@@ -131,6 +131,9 @@ class AbstractDataframeDataReader:
 
         # Check patient ID common to every format
         self._check_ID(df["ID"])
+        if isinstance(df["ID"].dtype, pd.CategoricalDtype):
+            # identifiers are plain labels: categories without any row must not become individuals in group-bys
+            df["ID"] = df["ID"].astype(df["ID"].cat.categories.dtype)
 
         df = self._set_index(df)
         if not df.index.is_unique:
